@@ -20,7 +20,7 @@ CHECKS = {
     "C02": {
         "scenarios": [{"name": "crash"}],
         "accept": ["crash:", "replay:"],
-        "technique": "Lean: the daemon as a process (Proofs/Process, NonInterference): along EVERY run of completed iterations, iterations cut short before COMMIT and restarts, heights are applied once each, in order, without gaps (InOrder invariant); cut-short iterations leave no trace at any height; below PIP-10 every kill and restart can be erased without changing the ledger or the sync height (relational program logic: nothing but the final bump reads pn_sync_version); block all-or-nothing; regenerated fact that no sync-path write uses the pool. Tie: real SIGKILL of a child daemon before every kind of SQL statement / COMMIT / after COMMIT, and before COMMIT of a snapshot block on a 40 000-holder ledger (pages spilled) under the daemon's own journal configuration; reopen, integrity check, compare with the reference ledger, resume",
+        "technique": "Lean: the daemon as a process (Proofs/Process, NonInterference): along EVERY run of completed iterations, iterations cut short before COMMIT and restarts, heights are applied once each, in order, without gaps (InOrder invariant); cut-short iterations leave no trace at any height; below PIP-10 every kill and restart can be erased without changing the ledger or the sync height (relational program logic: nothing but the final bump reads pn_sync_version); block all-or-nothing; regenerated fact that no sync-path write uses the pool. Tie: real SIGKILL of a child daemon before every kind of SQL statement / COMMIT / after COMMIT, and before COMMIT of a snapshot block on a 40 000-holder ledger (pages spilled) under the daemon's own journal configuration; reopen, integrity check, compare with the reference ledger, resume; single statements of a block transaction (first / last write, a random one, COMMIT) failing once instead of a kill, resumed ledger (one version row per height) compared",
         "assumptions": [SQLITE],
         "design_ref": "DESIGN.md §7 C02",
     },
@@ -41,7 +41,7 @@ CHECKS = {
     "C05": {
         "scenarios": [{"name": "sigmut"}, {"name": "dups"}],
         "accept": ["sigmut:", "liveness:", "dups:"],
-        "technique": "Lean: debit_needs_signature for one block and every chain — a balance of address a can only decrease if a is the input address of a batch (in the block or in holding) that passes Validate at that height, or a special address at its adjustment height (structural theorem with call-site obligations, Proofs/Auth); invalid entry inert on arrival and from holding; key type selected strictly above its activation; single input address; int64 bound. Tie: one validly signed transfer plus hundreds of mutants per key type and era, lock-step, executions counted; repetition patterns followed by a valid entry",
+        "technique": "Lean: debit_needs_signature for one block and every chain — a balance of address a can only decrease if a is the input address of a batch (in the block or in holding) that passes Validate at that height, or a special address at its adjustment height (structural theorem with call-site obligations, Proofs/Auth); invalid entry inert on arrival and from holding; key type selected strictly above its activation; single input address; int64 bound. Tie: one validly signed transfer plus hundreds of mutants per key type and era, lock-step, executions counted (incl. batches naming another address as input of their first / last / middle / only transaction under the signer's signature alone); repetition patterns followed by a valid entry",
         "assumptions": [ORACLES, "signature soundness (a verdict bit implies the key holder signed) is assumed of fat103 / the crypto libraries"],
         "design_ref": "DESIGN.md §7 C05",
     },
@@ -111,14 +111,14 @@ CHECKS = {
     "C15": {
         "scenarios": [{"name": "ledger"}, {"name": "aligned"}],
         "accept": ["issuance:", "history-replay:old-burn", "history-replay:burn", "history-replay:mint"],
-        "technique": "Lean: regenerated developer table sums to 100 % / 2000 PEG (x144), mint table shape, activation order; payouts, mint and zeroings are identity off their heights; kernel-checked witness that the old-burn zeroing stops at the first non-zero asset. Tie: lock-step chain crossing every activation with funds on the special addresses; chains whose developer-reward / 2.0.2 activation is a multiple of 144 (aligned with the payout cadence); schedule monitor",
+        "technique": "Lean: regenerated developer table sums to 100 % / 2000 PEG (x144), mint table shape, activation order; payouts, mint and zeroings are identity off their heights; kernel-checked witness that the old-burn zeroing stops at the first non-zero asset. Tie: lock-step chain crossing every activation with funds on the special addresses; chains whose developer-reward / 2.0.2 activation is a multiple of 144 (aligned with the payout cadence); the last asset of the ticker list sent to the burn address before its zeroing; schedule monitor",
         "assumptions": [ORACLES],
         "design_ref": "DESIGN.md §7 C15",
     },
     "C16": {
         "scenarios": [{"name": "payouts"}, {"name": "ledger"}, {"name": "bank"}],
         "accept": ["payouts:", "refund:", "bank:", "history-replay:balances-differ:bank-"],
-        "technique": "Lean: bank pass of a block — PEG supply grows by exactly the sum of Payouts over the requests, which is at most the bank; bank row gets used = sum of yields, requested = total (recordPegRequests level, genuine PEG requests); Payouts: limit, full if fits, exact when over, proportional; refund: yield*pegRate + refund*srcRate <= input*srcRate. Tie: ConversionSupplySet / Refund vs the model; bank-era chains with requests below / around / above the bank, ungraded blocks, rejected requests",
+        "technique": "Lean: bank pass of a block — PEG supply grows by exactly the sum of Payouts over the requests, which is at most the bank; bank row gets used = sum of yields, requested = total (recordPegRequests level, genuine PEG requests); Payouts: limit, full if fits, exact when over, proportional; refund: yield*pegRate + refund*srcRate <= input*srcRate. Tie: ConversionSupplySet / Refund vs the model; bank-era chains with requests below / around / above the bank, ungraded blocks, rejected requests; refund monitor on every executed PEG request (recorded refund = floor((requested - paid)*peg/src))",
         "assumptions": ["request keys are distinct (Go map keys)", "bank is a uint64"],
         "design_ref": "DESIGN.md §7 C16",
     },
@@ -132,7 +132,7 @@ CHECKS = {
     "C18": {
         "scenarios": [{"name": "api", "race": True}],
         "accept": ["api:", "race:"],
-        "technique": "Lean (call granularity): API calls never change the committed database, see committed state only, but move the shared averaging cache (kernel-checked witness); regenerated lists of API sites touching shared node state and of goroutine starts. Tie/support: real srv handlers over HTTP from 6 goroutines during real sync, ledger compared with the load-free run; binary built with -race, reports parsed",
+        "technique": "Lean (call granularity): API calls never change the committed database, see committed state only, but move the shared averaging cache (kernel-checked witness); regenerated lists of API sites touching shared node state and of goroutine starts. Tie/support: real srv handlers over HTTP from 6 goroutines during real sync, ledger compared with the load-free run; a phase in which a reader outlasts the busy timeout so that COMMITs fail with 'database is locked' (rollback journal, the default) and must be retried; binary built with -race, reports parsed",
         "assumptions": [SQLITE, "goroutine interleavings inside one call cannot be exhibited by the sequential model: the race detector run supports, it does not prove"],
         "design_ref": "DESIGN.md §7 C18",
     },
